@@ -637,6 +637,15 @@ UYieldRet(w, tag) ==
   /\ \E t \in D : At(w, t, "yu9") /\ th[t].tag = tag /\ th' = SetPc(t, User)
   /\ UNCHANGED <<cur, got, cb, runq, lk, stk, freeD, freeS, flS, nD, nS, nL, anw, tg, bad, sv>>
 
+\* C03 probe: the operation `op` was executed with recognisable values in rbx, rbp, r12-r15 and in a stack array;
+\* mask = registers found changed afterwards, sbad = number of changed array cells (the thread may have been
+\* suspended, run other threads on its worker, and resumed on a different worker in between)
+UProbe(w, tag, op, mask, sbad) ==
+  /\ \E t \in D : At(w, t, "user") /\ th[t].tag = tag
+  /\ bad' = IF mask # 0 THEN Fail("C03: a callee-saved register of the thread changed across a switching operation")
+            ELSE IF sbad # 0 THEN Fail("C03: stack contents of the thread changed across a switching operation") ELSE bad
+  /\ UNCHANGED <<cur, got, cb, runq, th, lk, stk, freeD, freeS, flS, nD, nS, nL, anw, tg, sv>>
+
 UMainEnd(w) ==
   /\ \E t \in D : At(w, t, "user") /\ th[t].tag = 0 /\ th' = SetPc(t, P("done", 0, 0, 0))
   /\ UNCHANGED <<cur, got, cb, runq, lk, stk, freeD, freeS, flS, nD, nS, nL, anw, tg, bad, sv>>
